@@ -15,6 +15,7 @@ import (
 
 	"verif/harness/h"
 
+	"github.com/golang/protobuf/proto"
 	"github.com/itchio/lake"
 	"github.com/itchio/lake/pools/fspool"
 	"github.com/itchio/lake/tlc"
@@ -198,12 +199,18 @@ func check(s Spec) h.Result {
 		if err != nil {
 			return h.Failf("sign new: %v", err)
 		}
-		solo := func(rev bool, j *h.Jitter) ([]byte, []byte, error) {
+		// settings == nil: a settings object of its own; otherwise the caller's (one "default compression" object
+		// shared by every diff of the process)
+		solo := func(rev bool, j *h.Jitter, settings ...*pwr.CompressionSettings) ([]byte, []byte, error) {
 			var dctx *pwr.DiffContext
+			own := s.Comp.Settings()
+			if len(settings) > 0 && settings[0] != nil {
+				own = settings[0]
+			}
 			if !rev {
-				dctx = &pwr.DiffContext{Compression: s.Comp.Settings(), Consumer: h.Quiet(), SourceContainer: sc, Pool: &h.JitterPool{Pool: fspool.New(sc, nd), J: j}, TargetContainer: tc, TargetSignature: th}
+				dctx = &pwr.DiffContext{Compression: own, Consumer: h.Quiet(), SourceContainer: sc, Pool: &h.JitterPool{Pool: fspool.New(sc, nd), J: j}, TargetContainer: tc, TargetSignature: th}
 			} else {
-				dctx = &pwr.DiffContext{Compression: s.Comp.Settings(), Consumer: h.Quiet(), SourceContainer: tc, Pool: &h.JitterPool{Pool: fspool.New(tc, od), J: j}, TargetContainer: sc2, TargetSignature: th2}
+				dctx = &pwr.DiffContext{Compression: own, Consumer: h.Quiet(), SourceContainer: tc, Pool: &h.JitterPool{Pool: fspool.New(tc, od), J: j}, TargetContainer: sc2, TargetSignature: th2}
 			}
 			pw, sw := &jitterWriter{j: j}, &jitterWriter{j: j}
 			err := dctx.WritePatch(context.Background(), pw, sw)
@@ -217,16 +224,24 @@ func check(s Spec) h.Result {
 			p, s []byte
 			err  error
 		}
+		shared := s.Comp.Settings()
 		for round := 0; round < 2; round++ {
 			ch := make([]chan out, 2)
 			for k := 0; k < 2; k++ {
 				ch[k] = make(chan out, 1)
 				go func(k int) {
-					p, sg, err := solo(k == 1, h.NewJitter(s.Jitter, round*13+k*5))
+					var st *pwr.CompressionSettings
+					if round == 1 {
+						st = shared // second round: both diffs are given the same settings object
+					}
+					p, sg, err := solo(k == 1, h.NewJitter(s.Jitter, round*13+k*5), st)
 					ch[k] <- out{p, sg, err}
 				}(k)
 			}
 			a, b := <-ch[0], <-ch[1]
+			if !proto.Equal(shared, s.Comp.Settings()) {
+				return h.Result{Fail: fmt.Sprintf("the compression settings object two concurrent diffs were given has changed: %v, was %v", shared, s.Comp.Settings()), Classes: cl}
+			}
 			if a.err != nil || b.err != nil {
 				return h.Result{Fail: fmt.Sprintf("concurrent WritePatch calls failed: %v / %v", a.err, b.err), Classes: cl}
 			}
